@@ -51,7 +51,8 @@ STAGES = {
     "C16": [S("regress", "^TestC16Regress$"),
             S("schedules", "^TestC16$", quick=3000, thorough=20000, shards=(4, 16)),
             S("schedules-race", "^TestC16$", quick=300, thorough=3000, shards=(2, 16), race=True)],
-    "C17": [S("grid", "^TestC17$", shards=(4, 16))],
+    "C17": [S("grid", "^TestC17$", shards=(4, 16)),
+            S("neighbours", "^TestC17Neighbours$")],
     "C01": [S("sweep", "^TestC01Sweep$", shards=(3, 9)),
             S("roundtrip", "^TestC01$", quick=250, thorough=4000, shards=(6, 16), timeout=("15m", "90m"))],
     "C02": [S("programs", "^TestC02$", quick=1500, thorough=6000, shards=(4, 16))],
@@ -60,7 +61,8 @@ STAGES = {
             S("raw", "^TestC03Raw$", quick=8000, thorough=60000, shards=(4, 16)),
             S("fuzz", "^$", tiers=("thorough",), shards=(1, 1), fuzz={"target": "^FuzzC03$", "time": {"quick": "10s", "thorough": "180s"}}, timeout=("10m", "30m"))],
     "C04": [S("cuts", "^TestC04$", quick=40, thorough=60, shards=(6, 16), timeout=("15m", "120m"), shrinktime="60s")],
-    "C05": [S("concurrent", "^TestC05$", quick=150, thorough=2500, shards=(6, 16), timeout=("15m", "90m")),
+    "C05": [S("regress", "^TestC05Regress$"),
+            S("concurrent", "^TestC05$", quick=150, thorough=2500, shards=(6, 16), timeout=("15m", "90m")),
             S("concurrent-race", "^TestC05$", quick=40, thorough=800, shards=(4, 16), race=True, timeout=("15m", "90m"))],
     "C06": [S("codes", "^TestC06$", shards=(8, 16)),
             S("mixed", "^TestC06Mixed$", quick=3000, thorough=20000, shards=(2, 16))],
